@@ -149,7 +149,7 @@ class C18:
     excl = {'D40': 0, 'D48': 0}
 
     def budget(self, tier):
-        return 2600 if tier == 'quick' else 60000
+        return 2600 if tier == 'quick' else 30000
 
     def one(self, ch, ctx):
         st = ctx.stats
